@@ -384,6 +384,14 @@ class Engine(
                 # operands are only Selects if they need to be subqueries.
                 new_lhs, new_lhs_needs_projection = lhs.strip()
                 new_rhs, new_rhs_needs_projection = rhs.strip()
+                # Stripping a Projection re-exposes the columns it removed; if
+                # the other operand has a column of the same name the two would
+                # be confused with each other in the join, so such a Projection
+                # has to stay in a subquery.
+                if (new_lhs.columns - lhs.columns) & new_rhs.columns:
+                    new_lhs, new_lhs_needs_projection = lhs, False
+                if (new_rhs.columns - rhs.columns) & new_lhs.columns:
+                    new_rhs, new_rhs_needs_projection = rhs, False
                 if new_lhs_needs_projection or new_rhs_needs_projection:
                     projection = Projection(frozenset(lhs.columns | rhs.columns))
                 else:
